@@ -6,10 +6,13 @@ Import ListNotations.
 Lemma step_join : forall T st w uid, Inv T st -> valid_op T (OJoin w uid) = true -> step_ok T st (OJoin w uid).
 Proof.
   intros T st w uid I V. unfold step_ok. assert (W := wft_step T _ (i_wft _ _ I) V).
+  assert (WC := wfc_step T (OJoin w uid) (i_wfc _ _ I)).
   cbn [valid_op] in V. apply negb_true_iff, Nat.eqb_neq in V.
   assert (A := abs_lookup T st w I). cbn [step]. unfold handle_join. cbn [tstep] in *.
   set (ei := match lookup w (eps st) with Some ei => ei | None => mkE None 0 None [] [] [] end).
   assert (EU : e_upd ei = lookup w (t_eps T)).
+  { unfold ei. destruct (lookup w (eps st)); cbn [entry_abs] in A; inversion A; reflexivity. }
+  assert (EC : conn_of ei = lookup w (t_conn T)).
   { unfold ei. destruct (lookup w (eps st)); cbn [entry_abs] in A; inversion A; reflexivity. }
   assert (LV : forall j s, e_out ei = Some (j, s) -> In (w, ei) (eps st)).
   { unfold ei. intros j s. destruct (lookup w (eps st)) eqn:LW; [intros _; apply lookup_in; exact LW|simpl; discriminate]. }
@@ -69,7 +72,14 @@ Proof.
   - intros w0 N. cbn [t_eps t_conn]. rewrite lookup_insert. destruct (Nat.eqb_spec w0 w); [congruence|split; reflexivity].
   - cbn [entry_abs e_upd t_eps t_conn]. unfold conn_of. cbn [e_out e_uid]. rewrite lookup_insert, Nat.eqb_refl, EU. unfold nj. rewrite (i_nj _ _ I). reflexivity.
   - intros j0 w0 c0 s0 Hc. cbn [closed] in Hc. apply archive_in in Hc. destruct Hc as [Hc|[-> Hc]]; [left; exact Hc|right].
-    apply (live_checked st w ei j0 s0); [apply (i_live _ _ I), (LV _ _ Hc)|exact Hc].
+    split; [apply (live_checked st w ei j0 s0); [apply (i_live _ _ I), (LV _ _ Hc)|exact Hc]|].
+    unfold conn_of in EC. rewrite Hc in EC.
+    eapply (cfree_archived T w j0 _ (S (t_njoins T)) (insert w (t_njoins T, uid) (t_conn T)) (Some (t_njoins T, uid)) (i_wfc _ _ I));
+      [symmetry; exact EC|apply le_S, le_n| |right; exists uid; reflexivity].
+    intro w'. rewrite lookup_insert. reflexivity.
+  - exact WC.
+  - cbn [t_njoins]. apply le_S, le_n.
+  - right. right. exists uid. cbn [t_conn]. rewrite lookup_insert, Nat.eqb_refl. reflexivity.
 Qed.
 
 (* ---- every valid operation keeps the invariant and does not panic ---- *)
